@@ -361,6 +361,56 @@ pub open spec fn withint_render(out: Seq<u8>, ts: int, v: int) -> bool {
     &&& ascii_digits(strip_point(out, ts))
     &&& dba(strip_point(out, ts)) == v
 }
+/// leading '0' characters do not change the value of an ASCII digit string
+pub proof fn lemma_dba_leading_zeros(s: Seq<u8>, t: Seq<u8>, z: int)
+    requires ascii_digits(s), z >= 0, t.len() == s.len() + z, t.subrange(z, t.len() as int) =~= s,
+             forall|i: int| 0 <= i < z ==> t[i] == 48u8
+    ensures ascii_digits(t), dba(t) == dba(s)
+{
+    assert forall|i: int| 0 <= i < t.len() implies 48 <= (#[trigger] t[i]) && t[i] <= 57 by {
+        if i >= z { assert(t[i] == t.subrange(z, t.len() as int)[i - z]); }
+    }
+    let ut = unascii(t);
+    lemma_dbe_split(ut, z);
+    let pre = ut.subrange(0, z);
+    assert forall|i: int| 0 <= i < pre.len() implies pre[i] == 0 by { assert(pre[i] == ut[i]); }
+    lemma_dbe_all_zero(pre);
+    assert(ut.subrange(z, ut.len() as int) =~= unascii(s)) by {
+        assert forall|i: int| 0 <= i < s.len() implies ut[z + i] == unascii(s)[i] by { assert(t[z + i] == t.subrange(z, t.len() as int)[i]); }
+    }
+    assert(0 * pow10(ut.len() - z) == 0);
+}
+/// "0.00ddd00": the characters other than the point are '0' except for the block d1 that ends tz places before the end;
+/// the printed digits then read as d1 followed by tz zeros
+pub proof fn lemma_noint_layout(out: Seq<u8>, d1: Seq<u8>, ts: int, ds: int)
+    requires ascii_digits(d1), d1.len() >= 1, ts >= 1, 0 <= ds <= ts, out.len() == ts + 2, out[1] == 46u8,
+             d1.len() <= ds || (ds == 0 && d1.len() == 1),
+             ds != 0 ==> (forall|i: int| 0 <= i < ts + 2 && i != 1 ==> out[i] == (if 2 + ds - d1.len() <= i < 2 + ds { d1[i - (2 + ds - d1.len())] } else { 48u8 })),
+             ds == 0 ==> out[0] == d1[0] && (forall|i: int| 2 <= i < ts + 2 ==> out[i] == 48u8),
+    ensures withint_render(out, ts, dba(d1) * pow10(ts - ds))
+{
+    let l1 = d1.len() as int;
+    let tz = ts - ds;
+    let sp = strip_point(out, ts);
+    assert(sp.len() == ts + 1);
+    if ds != 0 {
+        let idx = 2 + ds - l1;
+        let mid = sp.subrange(0, idx - 1 + l1);
+        assert forall|i: int| 0 <= i < sp.len() implies sp[i] == (if idx - 1 <= i < idx - 1 + l1 { d1[i - (idx - 1)] } else { 48u8 }) by {
+            if i < 1 { assert(sp[i] == out[i]); } else { assert(sp[i] == out[i + 1]); }
+        }
+        assert(mid.subrange(idx - 1, mid.len() as int) =~= d1);
+        lemma_dba_leading_zeros(d1, mid, idx - 1);
+        assert(sp.subrange(0, mid.len() as int) =~= mid);
+        lemma_dba_append_zeros(mid, sp, tz);
+    } else {
+        assert forall|i: int| 0 <= i < sp.len() implies sp[i] == (if i < 1 { d1[i] } else { 48u8 }) by {
+            if i < 1 { assert(sp[i] == out[i]); } else { assert(sp[i] == out[i + 1]); }
+        }
+        assert(sp.subrange(0, 1) =~= d1);
+        lemma_dba_append_zeros(d1, sp, ts);
+    }
+}
 pub proof fn lemma_dba_append_zeros(s: Seq<u8>, t: Seq<u8>, z: int)
     requires ascii_digits(s), z >= 0, t.len() == s.len() + z, t.subrange(0, s.len() as int) =~= s,
              forall|i: int| s.len() <= i < t.len() ==> t[i] == 48u8
